@@ -27,6 +27,33 @@ pub fn lines(text: &str) -> Vec<(usize, usize)> {
     out
 }
 
+/// Line table of one text for many position queries (same model as `position`)
+pub struct LineIndex<'a> {
+    text: &'a str,
+    lines: Vec<(usize, usize)>,
+}
+
+impl<'a> LineIndex<'a> {
+    pub fn new(text: &'a str) -> Self {
+        LineIndex { text, lines: lines(text) }
+    }
+    pub fn line_count(&self) -> usize {
+        self.lines.len()
+    }
+    /// byte offset (on a char boundary) -> Position
+    pub fn position(&self, off: usize) -> (u32, u32) {
+        // last line whose start <= off
+        let li = match self.lines.binary_search_by(|(s, _)| s.cmp(&off)) {
+            Ok(i) => i,
+            Err(i) => i.saturating_sub(1),
+        };
+        let (s, e) = self.lines[li];
+        let upto = off.min(e);
+        let col: usize = self.text[s..upto].chars().map(|c| c.len_utf16()).sum();
+        (li as u32, col as u32)
+    }
+}
+
 /// Position -> byte offset. None when the column falls between the two code units of a
 /// surrogate pair (LSP leaves that undefined).
 pub fn offset(text: &str, line: u32, character: u32) -> Option<usize> {
@@ -96,6 +123,10 @@ mod tests {
     #[test]
     fn model() {
         let t = "a\u{1f600}b\ncd\r\nef\rg";
+        let ix = LineIndex::new(t);
+        for off in (0..=t.len()).filter(|o| t.is_char_boundary(*o)) {
+            assert_eq!(ix.position(off), position(t, off), "offset {}", off);
+        }
         assert_eq!(lines(t).len(), 4);
         assert_eq!(offset(t, 0, 3), Some(5)); // `b` after a 2-unit astral char
         assert_eq!(offset(t, 0, 2), None);
